@@ -1,10 +1,10 @@
 (* C05 — Bit-packed boolean maps are indistinguishable from ordinary boolean maps.
-   Statements only; proofs in PackedProofs.v (views) and PackedOps.v (the byte-level bulk and
-   index-array operations).  The map-level layout theorems (C01, C02, C04, C11)
+   Statements only; proofs in PackedProofs.v (views), PackedOps.v (the byte-level bulk and
+   index-array operations), PackedSum.v (sum) and PackedCopyProofs.v (copy, resize).  The map-level layout theorems (C01, C02, C04, C11)
    are generic in the cell type and hold at V = bool whatever the storage; what is specific to the
    packed storage is the addressing of bits through slice views, proved here for every alignment
    and nesting depth, and compared with the implementation's view objects on every run. *)
-From HS Require Import Prelude Packed PackedProofs PackedOps PackedSum.
+From HS Require Import Prelude Packed PackedProofs PackedOps PackedSum PackedCopy PackedCopyProofs.
 Open Scope Z_scope.
 
 (* a slice [a, b) of a well-formed view is a well-formed view of b - a bits whose bit 0 is the
@@ -95,11 +95,79 @@ Theorem C05_sum_is_the_number_of_set_bits_of_the_view :
     sum_view v data = zcount (bit data) (zrange (vsi v) (vst v)).
 Proof. exact sum_view_spec. Qed.
 
+(* copy(): the new buffer holds every bit of the view and nothing else — the padding of the edge bytes, which
+   in a view of a larger array holds the neighbours' bits, is cleared — for every alignment and length *)
+Theorem C05_copy_keeps_the_view_and_clears_the_padding :
+  forall (v : pview) (data : list Z),
+    view_ok v -> vds v = 0 -> vde v = zlen data -> 0 < vsize v -> bytes_ok data ->
+    let data' := copy_view v data in
+    zlen data' = zlen data /\ bytes_ok data' /\
+    forall k, 0 <= k < 8 * zlen data ->
+      bit data' k = (vsi v <=? k) && (k <? vst v) && bit data k.
+Proof. exact copy_view_spec. Qed.
+
+(* resize(newsize) of an array whose padding is clear: old bits kept, every new position reads False, the
+   enlarged view is well formed and its padding is clear again; shrinking is rejected, same size is a no-op *)
+Theorem C05_resize_keeps_old_bits_and_appends_false :
+  forall (v : pview) (data : list Z) (newsize : Z),
+    0 <= vsi v <= 7 -> vsi v <= vst v -> vds v = 0 -> vde v = zlen data ->
+    8 * zlen data - 7 <= vst v <= 8 * zlen data ->
+    bytes_ok data -> tail_clean v data -> vsize v < newsize ->
+    exists v' data',
+      resize_view v data newsize = Some (v', data') /\
+      view_ok v' /\ vds v' = 0 /\ vde v' = zlen data' /\ vsi v' = vsi v /\ vsize v' = newsize /\
+      bytes_ok data' /\ tail_clean v' data' /\
+      (forall k, 0 <= k < vst v -> bit data' k = bit data k) /\
+      (forall k, vst v <= k < 8 * zlen data' -> bit data' k = false).
+Proof. exact resize_view_spec. Qed.
+
+Theorem C05_resize_rejects_shrinking :
+  forall (v : pview) (data : list Z) (newsize : Z), newsize < vsize v -> resize_view v data newsize = None.
+Proof. exact resize_view_shrink. Qed.
+
+(* where the clear padding comes from: a fresh array, a copy; and what keeps it: the bulk and index operations *)
+Theorem C05_padding_is_clear_after_copy :
+  forall (v : pview) (data : list Z),
+    view_ok v -> vds v = 0 -> vde v = zlen data -> 0 < vsize v -> bytes_ok data ->
+    tail_clean v (copy_view v data).
+Proof. exact copy_view_tail_clean. Qed.
+
+Theorem C05_bulk_operations_keep_the_padding_clear :
+  forall (o : bop) (v : pview) (data : list Z) (ob : Z -> Z),
+    view_ok v -> vds v = 0 -> vde v = zlen data -> 0 < vsize v -> bytes_ok data ->
+    (forall j, 0 <= ob j < 256) ->
+    tail_clean v data -> tail_clean v (bulk_op o v data ob).
+Proof. exact bulk_op_tail_clean. Qed.
+
+Example C05_copy_resize_hypotheses_satisfiable :
+  let v := mkview 0 2 3 14 in
+  let data := [255; 255] in
+  copy_view v data = [248; 63] /\
+  resize_view v (copy_view v data) 21 = Some (mkview 0 3 3 24, [248; 63; 0]).
+Proof. exact copy_resize_example. Qed.
+
 Example C05_hypotheses_satisfiable :
   view_ok (mkview 0 8 0 64) /\
   slice_view (mkview 0 8 0 64) (Some 3) (Some 40) = Some (mkview 0 5 3 40) /\
   slice_view (mkview 0 5 3 40) (Some 2) (Some 3) = Some (mkview 0 1 5 6).
 Proof. unfold view_ok, vsize, vndata. cbn. repeat split; try lia; reflexivity. Qed.
+
+(* C05: an unaligned 13-bit view (bits 3..16 of a 2-byte buffer) meets the hypotheses; xor with a packed operand *)
+Example C05_byte_level_hypotheses_satisfiable :
+  let v := mkview 0 2 3 16 in
+  let data := [173; 90] in
+  view_ok v /\ vds v = 0 /\ vde v = zlen data /\ 0 < vsize v /\ bytes_ok data /\
+  bulk_op BXor v data (fun j => znth 0 [255; 15] j) = [85; 85] /\
+  sum_view v data = 7 /\ set_bits [3; 3; 12] [0; 0] = [8; 16].
+Proof.
+  cbv zeta. split; [unfold view_ok, vsize, vndata; cbn; lia|].
+  split; [reflexivity|]. split; [reflexivity|]. split; [unfold vsize; cbn; lia|].
+  split.
+  - intros j Hj. change (zlen [173; 90]) with 2 in Hj.
+    assert (j = 0 \/ j = 1) as [->| ->] by lia; cbn; lia.
+  - vm_compute. repeat split; reflexivity.
+Qed.
+
 
 Print Assumptions C05_slice_addresses_the_requested_bits.
 Print Assumptions C05_legal_slices_never_raise.
@@ -113,3 +181,10 @@ Print Assumptions C05_clear_bits_at_locations.
 Print Assumptions C05_test_bit_at_location.
 Print Assumptions C05_sum_is_the_number_of_set_bits_of_the_view.
 Print Assumptions C05_hypotheses_satisfiable.
+Print Assumptions C05_byte_level_hypotheses_satisfiable.
+Print Assumptions C05_copy_keeps_the_view_and_clears_the_padding.
+Print Assumptions C05_resize_keeps_old_bits_and_appends_false.
+Print Assumptions C05_resize_rejects_shrinking.
+Print Assumptions C05_padding_is_clear_after_copy.
+Print Assumptions C05_bulk_operations_keep_the_padding_clear.
+Print Assumptions C05_copy_resize_hypotheses_satisfiable.
